@@ -128,6 +128,28 @@ func buildSyncModel(c *Ctx) *syncModel {
 	m := &syncModel{p: c.P, locks: &lockTable{idx: map[string]int{}}, lockAt: map[ssa.Instruction]lockset{}, order: map[[2]int]string{}}
 	for _, fn := range c.P.RepoFuncs(pkgRedis) {
 		m.funcs = append(m.funcs, fn)
+		c.analysed(fn)
+	}
+	// functions whose value is taken somewhere (cannot rely on callers' locks)
+	valueUsed := map[*ssa.Function]bool{}
+	for f := range c.P.AllFunctions() {
+		if f.Blocks == nil {
+			continue
+		}
+		allInstrs(f, func(ins ssa.Instruction) {
+			var ops []*ssa.Value
+			for _, o := range ins.Operands(ops) {
+				if o == nil || *o == nil {
+					continue
+				}
+				if fn, ok := (*o).(*ssa.Function); ok {
+					if cc := callCommon(ins); cc != nil && cc.Value == ssa.Value(fn) {
+						continue
+					}
+					valueUsed[fn] = true
+				}
+			}
+		})
 	}
 	// must-locksets, intraprocedural with entry locksets from static call sites (fixed point)
 	entry := map[*ssa.Function]lockset{}
@@ -223,7 +245,7 @@ func buildSyncModel(c *Ctx) *syncModel {
 				continue
 			}
 			sites := c.P.staticCallSites(fn)
-			if len(sites) == 0 || functionValueUsed(c.P, fn) {
+			if len(sites) == 0 || valueUsed[fn] {
 				continue
 			}
 			var meet lockset
